@@ -12,6 +12,9 @@
     T <portable> <names> <arg>*                   set/syntax.rs `parse`
     H <names> <argv0> <arg>*                      startup/args.rs `parse` (the shell's own command line)
     K <portable> <sigterm> <names> <arg>*         kill/syntax.rs `parse`
+    Y <ln><p> <table> <arg>*                      typeset/syntax.rs `parse` + `interpret` (<ln> = long_option_names, <p> = portable;
+                                                  <table> = `@typeset` | `@export` | `@readonly` (re-extracted constants) | `_` |
+                                                  comma-separated `<short>:<long>:<attr>`, attr 0 none / 1 ReadOnly / 2 Export)
     U <names> <init> <params0> <arg>*             `set arg…` run in a shell: set.rs `main` (<init> = `name.bit;…` for every option,
                                                   <params0> = `_` or comma-separated positional parameters)
   <names> = `_` or comma-separated answers of yash_env::option / Signals::str2sig:
@@ -30,7 +33,10 @@ import YashModel.Args.BespokeSpec
 import YashModel.Args.SetMain
 import YashModel.Args.SetSpec
 import YashModel.Args.OptionNames
+import YashModel.Args.Typeset
+import YashModel.Args.TypesetSpec
 import YashModel.Generated.OptionNames
+import YashModel.Generated.ArgSpecs
 open YashModel YashModel.Args YashModel.Proto
 
 def parseBit (c : Char) : Option Bool :=
@@ -366,6 +372,93 @@ def runHistoryLine (ts : List String) : String :=
     let err := ((obs.filterMap id).filter (fun o => o.fin == some 2)).length
     s!"{" | ".intercalate shown} diag={diag} err={err}" ++ "\t" ++ historyVerdict steps
 
+/-! the typeset family's own parser -/
+
+open YashModel.Args.Typeset in
+def attrOfNat : Nat → Option (Option Attr)
+  | 0 => some none
+  | 1 => some (some .readOnly)
+  | 2 => some (some .export)
+  | _ => none
+
+open YashModel.Args.Typeset in
+def parseTTable (t : String) : Option (List TSpec) :=
+  if t.startsWith "@" then
+    (Generated.ArgSpecs.typesetTables.find? (fun e => "@" ++ e.1 == t)).bind fun e =>
+      e.2.mapM fun (c, l, a) => do pure { short := c, long := l, attr := ← attrOfNat a }
+  else if t = "_" then some []
+  else (t.splitOn ",").mapM fun e =>
+    match e.splitOn ":" with
+    | [s, l, a] => do
+      let s ← decChars s
+      let c ← match s with | [c] => some c | _ => none
+      pure { short := c, long := ← decChars l, attr := ← (a.toNat? >>= attrOfNat) }
+    | _ => none
+
+open YashModel.Args.Typeset in
+def attrNum : Option Attr → Nat
+  | none => 0
+  | some .readOnly => 1
+  | some .export => 2
+
+open YashModel.Args.Typeset in
+def showOcc (o : Occ) : String := s!"{encChars [o.spec.short]}.{attrNum o.spec.attr}={bit o.state}"
+
+open YashModel.Args.Typeset in
+def showTAttrs (l : List (Attr × Bool)) : String :=
+  ";".intercalate (l.map fun (a, st) => s!"{match a with | .readOnly => "ro" | .export => "ex"}={bit st}")
+
+open YashModel.Args.Typeset in
+def showPErr : PErr → String
+  | .unknownShort c => s!"err:unknownShort:{encChars [c]}"
+  | .unknownLong => "err:unknownLong"
+  | .ambiguousLong => "err:ambiguousLong"
+  | .nonPortableLong => "err:nonPortableLong"
+  | .uncancelableShort c => s!"err:uncancelableShort:{encChars [c]}"
+  | .uncancelableLong => "err:uncancelableLong"
+
+open YashModel.Args.Typeset in
+def showTParse : Except PErr (List Occ × List Typeset.Str) → String
+  | .error e => showPErr e
+  | .ok (os, ops) => s!"ok [{";".intercalate (os.map showOcc)}] [{showStrs ops}]"
+
+open YashModel.Args.Typeset in
+def showInterp : Except IErr Cmd → String
+  | .ok (.setVariables v a g) => s!"setvars [{showTAttrs a}] g={bit g} [{showStrs v}]"
+  | .ok (.printVariables v a g) => s!"printvars [{showTAttrs a}] g={bit g} [{showStrs v}]"
+  | .ok (.setFunctions f a) => s!"setfns [{showTAttrs a}] [{showStrs f}]"
+  | .ok (.printFunctions f a) => s!"printfns [{showTAttrs a}] [{showStrs f}]"
+  | .error (.inapplicable c f) => s!"ierr:inapplicable:{showOcc c}:{showOcc f}"
+  | .error .missingOperand => "ierr:missingOperand"
+  | .error (.unexpectedOperands ops) => s!"ierr:unexpectedOperands:[{showStrs ops}]"
+  | .error (.foreignSpec c) => s!"ierr:foreignSpec:{encChars [c]}"
+
+open YashModel.Args.Typeset in
+def showTypeset (specs : List TSpec) (portable : Bool) (r : Except PErr (List Occ × List Typeset.Str)) : String :=
+  match r with
+  | .error _ => showTParse r
+  | .ok (os, ops) =>
+    let i := if decide (Interpretable specs) then showInterp (interpret os ops portable) else "skip"
+    s!"{showTParse r} => {i}"
+
+open YashModel.Args.Typeset in
+def runTypeset (specs : List TSpec) (ln portable : Bool) (args : List Typeset.Str) : String :=
+  let r := parse specs ln args
+  let obs := showTypeset specs portable r
+  let spec :=
+    if decide (WellFormed specs) then
+      let c := canon specs ln args
+      let rc := parse specs ln c
+      if showTypeset specs portable rc ≠ obs then s!"FAIL:canonical-spelling-gives {showTypeset specs portable rc}"
+      else match r with
+        | .ok _ =>
+          if !isCanonical c then "FAIL:canonical-spelling-is-not-canonical"
+          else if showTParse (read specs c) ≠ showTParse r then s!"FAIL:simple-reader-gives {showTParse (read specs c)}"
+          else "ok"
+        | .error _ => "ok"
+    else "-"
+  obs ++ "\t" ++ spec
+
 def runLine (line : String) : String :=
   match words line with
   | "P" :: m :: sp :: args =>
@@ -440,6 +533,13 @@ def runLine (line : String) : String :=
          else if obs = exp then "ok" else s!"FAIL:reference-reader-expects {exp}"
        obs ++ "\t" ++ spec
      | _, _, _, _ => "bad-case\t-")
+  | "Y" :: m :: tb :: args =>
+    (match m.toList, parseTTable tb, args.mapM decChars with
+     | [a, b], some specs, some args =>
+       (match parseBit a, parseBit b with
+        | some ln, some p => runTypeset specs ln p args
+        | _, _ => "bad-case\t-")
+     | _, _, _ => "bad-case\t-")
   | "B" :: _p :: _cmd :: _setup :: _probe :: rest => s!"n={(splitBar rest).length}\t-"
   | "E" :: _p :: _cmd :: _setup :: _probe :: _ => "n=1\t-"
   | "J" :: ts => runHistoryLine ts
